@@ -1,7 +1,9 @@
 From Coq Require Import String.
 (* Runner for the sequential swarmutil.Queue cases of C12 / C13.
-   case = (hub qseq <cap> <mtu> (<op> ...))   op = (d <src> <dst> xPAYLOAD) | (r) | (p) | (c) | (l)
-   obs  = (<result> ...)   result = (acc) | (ref) | (got <src> <dst> xPAYLOAD) | (closed) | (block) | (n <k>) | (done)
+   case = (hub qseq <cap> <mtu> (<op> ...))   op = (d <src> <dst> xPAYLOAD) | (r) | (rc <taken>) | (p) | (c) | (l)
+   obs  = (<result> ...)   result = (acc) | (ref) | (got <src> <dst> xPAYLOAD) | (closed) | (block) | (ctx) | (n <k>) | (done)
+   (rc t): a Receive whose context was cancelled before the call; Go's select may take a queued message
+   (t = 1) or return the context error (t = 0): the harness records which, the model follows.
    The model output is the result list of Model.Queue; the verdict checks on the
    implementation's results alone that every accepted message leaves exactly once,
    oldest first, and that nothing is accepted or handed out after Close. *)
@@ -11,6 +13,7 @@ Open Scope N_scope.
 Definition quop_of_sx (x : sx) : option qop :=
   match x with
   | SL [t; SN s; SN d; SB p] => if is_sym "d" t then Some (QDeliver (s, d, p)) else None
+  | SL [t; SN k] => if is_sym "rc" t then Some (QRecvCancelled (negb (k =? 0))) else None
   | SL [t] => if is_sym "r" t then Some QReceive else if is_sym "p" t then Some QPurge
               else if is_sym "c" t then Some QClose else if is_sym "l" t then Some QLen else None
   | _ => None
@@ -22,7 +25,7 @@ Definition sx_of_qout (o : qout) : sx :=
   match o with
   | QAccepted => SL [sym "acc"] | QRefused => SL [sym "ref"]
   | QGot (s, d, p) => SL [sym "got"; SN s; SN d; SB p]
-  | QErrClosed => SL [sym "closed"] | QWouldBlock => SL [sym "block"]
+  | QErrClosed => SL [sym "closed"] | QWouldBlock => SL [sym "block"] | QCtxErr => SL [sym "ctx"]
   | QCount n => SL [sym "n"; SN (N.of_nat n)]
   | QDone => SL [sym "done"]
   end.
@@ -60,11 +63,22 @@ Fixpoint p_qseq (cap mtu : nat) (closed : bool) (pending : list qmsg) (ops : lis
             (match pending with [] => if closed then bad "receive-blocks-on-a-closed-queue" else p_qseq cap mtu closed pending ot rt
                            | _ => bad "accepted-message-never-handed-to-a-callback" end)
           else bad "unexpected-result"
+      | QRecvCancelled _, SL [t; SN s; SN d; SB p] =>
+          if negb (is_sym "got" t) then bad "unexpected-result" else
+          match pending with
+          | [] => bad "received-a-message-nobody-is-owed"
+          | m :: pt => if qmsg_eqb m (s, d, p) then p_qseq cap mtu closed pt ot rt
+                       else if existsb (fun x => qmsg_eqb x (s, d, p)) pt then bad "received-out-of-order"
+                       else bad "received-message-differs-from-what-was-accepted"
+          end
+      | QRecvCancelled _, SL [t] =>
+          (* the context error: nothing may have been consumed (a later Len / Receive shows it) *)
+          if is_sym "ctx" t then p_qseq cap mtu closed pending ot rt else bad "unexpected-result"
       | QPurge, SL [t; SN n] =>
           if N.of_nat (length pending) =? n then p_qseq cap mtu closed [] ot rt else bad "purge-count-wrong"
       | QLen, SL [t; SN n] =>
-          if N.of_nat (length pending) =? n then p_qseq cap mtu closed pending ot rt else bad "len-wrong"
-      | QClose, SL [t] => p_qseq cap mtu true [] ot rt
+          if N.of_nat (length pending) =? n then p_qseq cap mtu closed pending ot rt else bad "queue-length-differs-from-accepted-minus-handed-out"
+      | QClose, SL [t] => if is_sym "close-stuck" t then bad "close-did-not-return" else p_qseq cap mtu true [] ot rt
       | _, _ => bad "unexpected-result"
       end
   | _, _ => bad "result-count-differs"
